@@ -158,6 +158,10 @@ def random_name_case(draw) -> Dict[str, Any]:
     s = draw(st.text(alphabet=st.one_of(st.sampled_from(list('._-_aZ9 \n')), st.characters(max_codepoint=0x2FF)),
                      max_size=draw(st.sampled_from([10, 40, 300]))))
     s += draw(st.sampled_from(['', '.local.', '._tcp.local.', '._udp.local.', '_http._tcp.local.', '._a._tcp.local.']))
+    if draw(st.integers(0, 5)) == 0:
+        # a Python string may hold a lone surrogate, which has no UTF-8 form: still only BadTypeInNameException may come out
+        pos = draw(st.integers(0, len(s)))
+        s = s[:pos] + draw(st.sampled_from(['\ud800', '\udcff', 'x\udfff'])) + s[pos:]
     return {'kind': 'name', 's': s[-300:], 'strict': draw(st.booleans()), 'viol': ['random']}
 
 
@@ -264,7 +268,11 @@ def check_name(case: Dict[str, Any]) -> Dict[str, Any]:
     from zeroconf._utils.name import service_type_name
 
     s, strict = case['s'], case['strict']
-    verdict, expected, reason = name_verdict(s, strict)
+    if any(0xD800 <= ord(ch) <= 0xDFFF for ch in s):
+        # no UTF-8 form, so the byte-length rules have nothing to measure: accept/reject is left open, the exception type is not
+        verdict, expected, reason = UNSPECIFIED, None, 'lone surrogate'
+    else:
+        verdict, expected, reason = name_verdict(s, strict)
     service_type_name.cache_clear()
     det = {'name': s, 'strict': strict, 'spec': verdict, 'reason': reason}
     try:
@@ -324,6 +332,9 @@ def check_txt(case: Dict[str, Any]) -> Dict[str, Any]:
                         tag='txt-library')
     got1: Dict[bytes, Any] = {}
     for k, v in info.properties.items():
+        if not isinstance(k, bytes) or not (v is None or isinstance(v, bytes)):
+            raise Violation('.properties of the constructed object holds a key or value that is not bytes (values: bytes or None)',
+                            {'key': repr(k), 'value': repr(v)[:60]}, tag='txt-first-object-types')
         got1.setdefault(k.encode('utf-8') if isinstance(k, str) else k,
                         ((v if isinstance(v, bytes) else str(v).encode('utf-8')) or None) if v is not None else None)
     if got1 != want_read:
